@@ -686,7 +686,9 @@ def rules(tier):
             # C14-fb: the save made on exhaustion written before max_probability is moved below every pre-terminal
             ('C14.R23', _shared_rule('c08', 'r28_exhausted_session_restores_nothing')),
             # C14-fa: the flags written to the save file come from ruleset_info.get('skip_case', False) - recorded as 'all_lower'
-            ('C14.R24', _shared_rule('plumbing', 'ruleset_info_keys'))]
+            ('C14.R24', _shared_rule('plumbing', 'ruleset_info_keys')),
+            # C14-ga: is_parent_around with `<` - the item popped at the save (exactly at the saved position) is not seen as pending
+            ('C14.R25', _shared_rule('c08', 'r2_region_agreement'))]
 
 
 META = {
